@@ -66,4 +66,140 @@ def register(reg, prog):
                           'all-up-to-seen': 'forall(m, was_seen(self, m) == (m <= seen))'})
     reg.contract(RW + '.is_initialized', result=BOOL, properties=P,
                  ensures={'def': 'result == (self._index is not None)'})
+    register_unprotect(reg, prog)
 
+
+
+def _late(reg, prog):
+    register_unprotect(reg, prog)
+
+
+def register_unprotect(reg, prog):
+    """call-order (typestate) contract of CanUnprotect.unprotect: cryptography, CBOR and key handling are environment"""
+    from contracts.util import lg, lg_result, evs, B, Ev
+    P = ['C12']
+    CU = 'aiocoap.oscore:CanUnprotect'
+    MSG = Ref('Message')
+    reg.declare_class('SecCtx', CU, fields={
+        'id_context': Opt(BYTES), 'recipient_id': BYTES, 'recipient_replay_window': Ref('ReplayWindow'), 'echo_recovery': Opt(BYTES),
+        'alg_aead': Ref('AlgI'), 'alg_group_enc': Ref('AlgI'), 'alg_signature': Ref('SigAlgI'), 'signature_encryption_key': BYTES,
+        'recipient_public_key': ANY, 'recipient_key': BYTES})
+    reg.declare_class('AlgI', 'aiocoap.oscore:SymmetricEncryptionAlgorithm', opaque=True, fields={'tag_bytes': INT, 'iv_bytes': INT})
+    reg.declare_class('SigAlgI', 'aiocoap.oscore:AlgorithmCountersign', opaque=True, fields={'signature_length': INT})
+    reg.declare_class('RequestIdentifiersI', 'aiocoap.oscore:RequestIdentifiers', opaque=True, fields={'partial_iv': BYTES, 'kid': BYTES})
+    reg.assume('A-AEAD (ideal): decrypt either returns the plaintext (at least one byte when the ciphertext is longer than the tag) '
+               'or raises; nothing is assumed about WHEN it fails -- the typestate clauses hold for every outcome')
+    reg.declare_class('ReplayErrorWithEcho', 'aiocoap.oscore:ReplayErrorWithEcho', fields={'secctx': Ref('SecCtx'), 'request_id': Opt(Ref('RequestIdentifiersI')), 'echo': Opt(BYTES)})
+    UNP = Dict(INT, BYTES, 'oscore.unprotected')
+
+    def extract(ex, st, args, kw, node):
+        st.log.append(('extract',))
+        unp = ex.new_dict(st, INT, BYTES, 'oscore.unprotected')
+        kd, dd = ex._dd(st, unp)
+        ex.heap_set(st, kd, z3.Store(dd, unp.t, z3.Const(fresh_name('unprot_dom'), z3.ArraySort(I, Bo))))
+        prot = ex.new_dict(st, INT, BYTES, 'oscore.protected')
+        kd2, dd2 = ex._dd(st, prot)
+        ex.heap_set(st, kd2, z3.Store(dd2, prot.t, z3.Const(fresh_name('prot_dom'), z3.ArraySort(I, Bo))))
+        s2 = st.copy()
+        ex.raise_exc(s2, 'aiocoap.oscore:DecodeError')
+        return [(st, VTuple([ex.fresh_val(st, BYTES, 'prot_ser'), prot, unp, ex.fresh_val(st, BYTES, 'ciphertext')])), (s2, None)]
+    reg.externals['repo:' + CU + '._extract_encrypted0'] = extract
+    reg.externals['repo:' + CU + '._extract_external_aad'] = lambda ex, st, args, kw, node: [(st, ex.fresh_val(st, BYTES, 'aad'))]
+    reg.externals['repo:aiocoap.oscore:BaseSecurityContext._extract_external_aad'] = reg.externals['repo:' + CU + '._extract_external_aad']
+    reg.externals['repo:aiocoap.oscore:BaseSecurityContext._construct_nonce'] = lambda ex, st, args, kw, node: [(st, ex.fresh_val(st, BYTES, 'nonce'))]
+    reg.externals['repo:aiocoap.oscore:BaseSecurityContext._kdf_for_keystreams'] = lambda ex, st, args, kw, node: [(st, ex.fresh_val(st, BYTES, 'keystream'))]
+    reg.externals['attr:SecCtx._kdf_for_keystreams'] = lambda ex, st, base, node: [(st, VFunc('ext', name='SecCtx._kdf_for_keystreams', bound=base))]
+    reg.externals['SecCtx._kdf_for_keystreams'] = lambda ex, st, args, kw, node: [(st, ex.fresh_val(st, BYTES, 'keystream'))]
+    reg.externals['repo:aiocoap.oscore:_xor_bytes'] = lambda ex, st, args, kw, node: [(st, ex.fresh_val(st, BYTES, 'xored'))]
+    reg.externals['repo:' + CU + '._get_recipient_key'] = lambda ex, st, args, kw, node: [(st, ex.fresh_val(st, BYTES, 'key'))]
+    reg.externals['cbor2.dumps'] = lambda ex, st, args, kw, node: [(st, ex.fresh_val(st, BYTES, 'cbor'))]
+    reg.externals['cbor.dumps'] = reg.externals['cbor2.dumps']
+    reg.externals['new:aiocoap.oscore:RequestIdentifiers'] = lambda ex, st, args, kw, node: [(st, ex.new_object(st, 'RequestIdentifiersI'))]
+
+    def post_checks(ex, st, args, kw, node):
+        st.log.append(('post_decrypt_checks',))
+        s2 = st.copy()
+        ex.raise_exc(s2, 'aiocoap.oscore:ProtectionInvalid')
+        return [(st, VNone()), (s2, None)]
+    reg.externals['repo:' + CU + '._post_decrypt_checks'] = post_checks
+
+    def decrypt(ex, st, args, kw, node):
+        alg, ciphertext = args[0], args[1]
+        s2 = st.copy()
+        s2.log.append(('decrypt_failed',))
+        ex.raise_exc(s2, 'aiocoap.oscore:ProtectionInvalid')
+        s2.exc[1].exact = False
+        st.log.append(('decrypt_ok',))
+        p = ex.fresh_val(st, BYTES, 'plaintext')
+        tag = ex.read_field(st, alg, 'tag_bytes', INT).t
+        st.assume(p.len == ciphertext.len - tag)
+        return [(st, p), (s2, None)]
+    reg.externals['AlgI.decrypt'] = decrypt
+
+    def verify(ex, st, args, kw, node):
+        s2 = st.copy()
+        s2.log.append(('decrypt_failed',))
+        ex.raise_exc(s2, 'aiocoap.oscore:ProtectionInvalid')
+        return [(st, VNone()), (s2, None)]
+    reg.externals['SigAlgI.verify'] = verify
+
+    RWK = 'aiocoap.oscore:ReplayWindow'
+    reg.contracts[RWK + '.is_initialized'].ghost = lg_result('rw_is_initialized', 'self')
+    reg.contracts[RWK + '.is_valid'].ghost = lg_result('rw_is_valid', 'self', 'number')
+    reg.contracts[RWK + '.strike_out'].ghost = lg('rw_strike_out', 'self', 'number')
+    reg.contracts[RWK + '.initialize_from_freshlyseen'].ghost = lg('rw_init_fresh', 'self', 'seen')
+
+    WINDOW_EVENTS = ('rw_strike_out', 'rw_init_fresh')
+
+    def order_ok(s):
+        """every write to the replay window happens after a successful decryption and after the validity checks said yes"""
+        kinds = [e[0] for e in s.log]
+        g = []
+        for i, e in enumerate(s.log):
+            if e[0] == 'rw_strike_out':
+                before = s.log[:i]
+                g.append(('strike-out-only-after-successful-decryption', B('decrypt_ok' in [x[0] for x in before] and 'decrypt_failed' not in kinds)))
+                inits = [x for x in before if x[0] == 'rw_is_initialized']
+                valids = [x for x in before if x[0] == 'rw_is_valid']
+                g.append(('strike-out-only-after-the-window-accepted-the-number',
+                          z3.And(B(len(inits) >= 1 and len(valids) == 1), *( [inits[0][-1].t, valids[0][-1].t, valids[0][2].t == e[2].t] if inits and valids else []))))
+            if e[0] == 'rw_init_fresh':
+                before = s.log[:i]
+                g.append(('window-initialised-only-after-successful-decryption', B('decrypt_ok' in [x[0] for x in before] and 'decrypt_failed' not in kinds)))
+        g.append(('at-most-one-window-write', B(sum(1 for k in kinds if k in WINDOW_EVENTS) <= 1)))
+        return g
+
+    def unp_exit(ex, s, entry, env, result):
+        ev = Ev(ex, s, entry, env)
+        g = order_ok(s)
+        kinds = [e[0] for e in s.log]
+        is_req = ev('old(1 <= protected_message.code < 32)')
+        inits = [e for e in s.log if e[0] == 'rw_is_initialized']
+        g.append(('a-message-is-returned-only-after-successful-decryption', B('decrypt_ok' in kinds and 'decrypt_failed' not in kinds)))
+        # accepted request: either the window vouched for it and it is now struck out, or the window was just
+        # initialised from this very request because it echoed the value issued by this process
+        accepted_by_window = B('rw_strike_out' in kinds)
+        accepted_by_echo = B('rw_init_fresh' in kinds)
+        g.append(('an-accepted-request-is-recorded-in-the-window', z3.Implies(is_req, z3.Or(accepted_by_window, accepted_by_echo))))
+        for e in s.log:
+            if e[0] == 'rw_init_fresh':
+                g.append(('echo-recovery-only-while-uninitialised-and-with-the-issued-value',
+                          z3.And(z3.Not(inits[0][-1].t) if inits else B(False),
+                                 ev('old(self.echo_recovery) is not None'),
+                                 ev('implies(old(1 <= protected_message.code < 32), res_[0].opt.echo == old(self.echo_recovery))', res_=result))))
+        return g
+
+    def unp_raise(ctx):
+        return z3.And(B(True), *[g for _, g in order_ok(ctx.st)])
+
+    RAISES = ['ProtectionInvalid', 'DecodeError', 'ReplayError', 'ReplayErrorWithEcho', 'NotAProtectedMessage', 'UnparsableMessage', 'AssertionError', 'ValueError', 'Exception']
+    reg.contract(CU + '.unprotect', self_class='SecCtx', params={'protected_message': MSG, 'request_id': Opt(Ref('RequestIdentifiersI'))},
+                 result=Tuple(MSG, Opt(Ref('RequestIdentifiersI'))), properties=P,
+                 requires=['protected_message.code is not None', '0 <= protected_message.code <= 255',
+                           # callers hand over requests (1..31) or responses (64..191) only: the message and token managers
+                           # drop every other code class before a security context sees it
+                           '1 <= protected_message.code < 32 or 64 <= protected_message.code < 192',
+                           'implies(self.recipient_replay_window._index is not None, window_wf(self.recipient_replay_window))',
+                           'self.alg_aead.tag_bytes >= 0', 'self.alg_group_enc.tag_bytes >= 0', 'self.recipient_replay_window._size > 0'],
+                 raises={k: MAY for k in RAISES}, modifies=['*'], at_exit=unp_exit,
+                 raises_post={k: {'window-untouched-unless-decryption-succeeded': unp_raise} for k in RAISES})
